@@ -1,4 +1,5 @@
 """Extra rules for C02/C03/C09: component usage, line endings, error payloads, minimum occurrence."""
+import json
 from .common import Finding
 from .facts import walk, is_call, lit_val, peel, callee
 from . import grammar as G
@@ -65,39 +66,79 @@ def line_endings(rep, F):
                        "field text followed by \"\\r\\n\"; finalize_mt_string removes one trailing CRLF through "
                        "remove_trailing_crlf (guarded by ends_with); \"\\r\\n\" is rewritten only in "
                        "SwiftMessage::to_mt_message", floor=5)
+    from . import emit
+    tpls = {}
     for name in ("append_field", "append_optional_field", "append_vec_field"):
         b = F.body_by_path.get("parser::utils::" + name)
         if b is None:
             rep.fail_closed("LE: parser::utils::%s not found" % name)
             continue
+        try:
+            tpls[name] = (emit.EmitExtract(F, b).run_emit(), b)
+        except RecursionError:
+            tpls[name] = ([], b)
+
+    def flat(items, out, depth=0):
+        for it in items or []:
+            k = it[0]
+            if k == "lit":
+                out.append(it[1])
+            elif k == "val":
+                out.append("field" if "to_swift_string" in it[1] else "?" + it[1])
+            elif k == "if":
+                a, b_ = [], []
+                flat(it[2], a, depth)
+                flat(it[3], b_, depth)
+                out.extend(a if a else b_)       # one branch emits, the other is the absent case
+                if a and b_ and a != b_:
+                    out.append("?branches")
+            elif k in ("for", "xform", "fmtd"):
+                flat(it[2], out, depth)
+            elif k == "call" and len(it) > 1 and it[1] in tpls and depth < 3:
+                flat(tpls[it[1]][0], out, depth + 1)
+            else:
+                out.append("?" + json.dumps(it)[:60])
+    for name, (t, b) in tpls.items():
         r["instances"] += 1
         seq = []
-        for n in walk(b["body"]):
-            if n.get("k") == "mcall" and n.get("m") == "push_str":
-                a = peel((n.get("args") or [None])[0])
-                if isinstance(a, dict) and is_call(a, "SwiftField::to_swift_string"):
-                    seq.append("field")
-                elif isinstance(a, dict) and a.get("k") == "lit":
-                    seq.append(a["v"])
-                else:
-                    seq.append("?")
-            if n.get("k") == "mcall" and n.get("m") == "push":
-                seq.append("?push")
-        if seq != ["field", "\r\n"]:
-            rep.add(Finding("LE", b["path"], "shape:%s" % "|".join(s.encode("unicode_escape").decode() for s in seq),
-                            "%s pushes %s instead of the field text followed by CRLF" % (name, seq), b["file"], b["line"]))
+        flat(t, seq)
+        merged = []
+        for x in seq:
+            if merged and not x.startswith(("field", "?")) and not merged[-1].startswith(("field", "?")):
+                merged[-1] += x
+            else:
+                merged.append(x)
+        if merged == ["field", "\r\n"]:
+            continue
+        if any(x.startswith("?") for x in merged) or not merged:
+            rep.notes.append("LE: %s is built in a way the template extractor does not interpret (%s): undecided"
+                             % (name, merged[:3]))
+            continue
+        rep.add(Finding("LE", b["path"], "shape:%s" % "|".join(x.encode("unicode_escape").decode() for x in merged),
+                        "%s pushes %s instead of the field text followed by CRLF" % (name, merged), b["file"], b["line"]))
     b = F.body_by_path.get("parser::utils::remove_trailing_crlf")
     if b is None:
         rep.fail_closed("LE: remove_trailing_crlf not found")
     else:
         r["instances"] += 1
-        guard = any(n.get("k") == "mcall" and n.get("m") == "ends_with" and
-                    lit_val(peel((n.get("args") or [None])[0])) == "\r\n" for n in walk(b["body"]))
+        lits = [lit_val(peel((n.get("args") or [None])[0])) for n in walk(b["body"])
+                if n.get("k") == "mcall" and n.get("m") in ("ends_with", "strip_suffix", "trim_end_matches")]
         cut = [n for n in walk(b["body"]) if n.get("k") == "mcall" and n.get("m") == "truncate"]
-        two = any(x.get("k") == "bin" and x.get("op") == "-" and lit_val(x.get("r")) == 2 for c in cut for x in walk(c))
-        if not (guard and cut and two):
-            rep.add(Finding("LE", b["path"], "shape", "remove_trailing_crlf does not remove exactly one trailing "
-                            "CRLF under an ends_with(\"\\r\\n\") guard", b["file"], b["line"]))
+        minus = [lit_val(x.get("r")) for c in cut for x in walk(c) if x.get("k") == "bin" and x.get("op") == "-"]
+        by_suffix = any(n.get("k") == "mcall" and n.get("m") == "strip_suffix" for n in walk(b["body"]))
+        if lits and any(l != "\r\n" for l in lits):
+            rep.add(Finding("LE", b["path"], "shape", "remove_trailing_crlf tests for %r, not for one trailing CRLF"
+                            % lits, b["file"], b["line"]))
+        elif lits and cut and ((minus and all(m == 2 for m in minus)) or (by_suffix and not minus)):
+            pass
+        elif lits and minus and any(m != 2 for m in minus):
+            rep.add(Finding("LE", b["path"], "shape", "remove_trailing_crlf cuts %s bytes for a two-byte CRLF"
+                            % minus, b["file"], b["line"]))
+        elif not lits:
+            rep.add(Finding("LE", b["path"], "shape", "remove_trailing_crlf no longer tests for a trailing CRLF",
+                            b["file"], b["line"]))
+        else:
+            rep.notes.append("LE: remove_trailing_crlf is written in a shape the rule does not interpret: undecided")
     b = F.body_by_path.get("parser::utils::finalize_mt_string")
     if b is not None:
         r["instances"] += 1
@@ -192,30 +233,78 @@ def walk_binds(p):
         yield from walk_binds(f.get("pat"))
 
 
+def _empty_checks(body):
+    """[(loop depth)] of every `if <vec>.is_empty() / len()==0 / len()<1 { return Err }` in a parser body"""
+    out = []
+
+    def is_empty_test(c):
+        c = peel(c)
+        if not isinstance(c, dict):
+            return False
+        if c.get("k") == "mcall" and c.get("m") == "is_empty":
+            return True
+        if c.get("k") == "bin" and c.get("op") in ("==", "<", "<="):
+            l, r_ = peel(c["l"]), peel(c["r"])
+            if isinstance(l, dict) and l.get("k") == "mcall" and l.get("m") == "len" and isinstance(lit_val(r_), int):
+                v = lit_val(r_)
+                return (c["op"] == "==" and v == 0) or (c["op"] == "<" and v == 1) or (c["op"] == "<=" and v == 0)
+        return False
+
+    def go(n, depth):
+        if isinstance(n, list):
+            for x in n:
+                go(x, depth)
+            return
+        if not isinstance(n, dict):
+            return
+        k = n.get("k")
+        if k == "closure":
+            return
+        if k == "if" and is_empty_test(n.get("cond")) and \
+                any(x.get("k") == "ret" for x in walk(n["then"])) and \
+                any(x.get("k") == "call" and (x.get("f") or "").endswith("::Err") for x in walk(n["then"])):
+            out.append(depth)
+        d2 = depth + 1 if k in ("while", "for", "loop") else depth
+        for kk, v in n.items():
+            if kk in ("pat", "pats", "params"):
+                continue
+            if isinstance(v, (dict, list)):
+                go(v, d2)
+    go(body, 0)
+    return sorted(out)
+
+
+# confirmed on the reviewed tree: where each type enforces "at least one" (0 = after the loops, 1 = per iteration)
+MIN_CHECKS = {"MT110": [0], "MT920": [0], "MT935": [0, 1], "MT940": [0]}
+
+
 def min_occurrence(rep, tms):
-    r = rep.rule("MO", "minimum occurrence: a parser that documents 'at least one' sequence rejects an empty "
-                       "repetition (`if <vec>.is_empty() { return Err }` after the loop) — sibling census, the "
-                       "four types that state the minimum are the reference", floor=4)
-    confirmed = {"MT110", "MT920", "MT935", "MT940"}
-    have = set()
+    r = rep.rule("MO", "minimum occurrence: every 'at least one' check of the reviewed tree (`if <vec>.is_empty() { "
+                       "return Err }`, per message and per repetition) is still made at the same loop depth; a "
+                       "check moved out of the repetition no longer holds for each occurrence", floor=4)
+    have = {}
     for tm in tms:
         if tm.g is None:
             continue
         body = tm.F.body_by_path.get(tm.pfn, {}).get("body")
         if body is None:
             continue
-        for n in walk(body):
-            if n.get("k") == "if":
-                c = n["cond"]
-                if c.get("k") == "mcall" and c.get("m") == "is_empty" and \
-                        any(x.get("k") == "ret" for x in walk(n["then"])) and \
-                        any(x.get("k") == "call" and (x.get("f") or "").endswith("::Err") for x in walk(n["then"])):
-                    have.add(tm.name)
-    for t in sorted(confirmed):
-        r["instances"] += 1
-        if t not in have:
-            tm = [x for x in tms if x.name == t][0]
-            rep.add(Finding("MO", tm.pfn, "min-one", "%s no longer rejects a message without its mandatory "
-                            "repetitive sequence" % t, tm.file, (tm.pb or {}).get("line")))
-    r["types_with_minimum"] = sorted(have)
+        cs = _empty_checks(body)
+        if cs:
+            have[tm.name] = cs
+    for t in sorted(MIN_CHECKS):
+        want = MIN_CHECKS[t]
+        got = list(have.get(t, []))
+        r["instances"] += len(want)
+        for d in want:
+            if d in got:
+                got.remove(d)
+            else:
+                tm = [x for x in tms if x.name == t][0]
+                rep.add(Finding("MO", tm.pfn, "min-one:depth%d" % d,
+                                "%s no longer rejects %s" % (t, "a message without its mandatory repetitive sequence"
+                                                             if d == 0 else "a repetition that lacks its mandatory "
+                                                             "repeating field (the check is gone from the loop)"),
+                                tm.file, (tm.pb or {}).get("line")))
+    r["types_with_minimum"] = {k: v for k, v in sorted(have.items())}
     return r
